@@ -88,7 +88,9 @@ func LEMO(n int64) *big.Int { return new(big.Int).Mul(big.NewInt(n), big.NewInt(
 // earns into Income[i].
 func NewWorld(cfg WorldCfg) *World {
 	w := &World{ChainID: 200, SlotMs: cfg.SlotMs, GenesisTime: cfg.GenesisTime, DeputyCap: cfg.DeputyCap}
-	if w.DeputyCap < cfg.Deputies {
+	if w.DeputyCap <= 0 {
+		// (a positive value below the number of genesis nodes is allowed: the surplus nodes are listed in the genesis
+		// term record as candidates, not as deputies)
 		w.DeputyCap = cfg.Deputies
 	}
 	if w.SlotMs == 0 {
